@@ -34,6 +34,7 @@ def main():
     demo_dir = None
     checks = [prop]
     tier = "quick"
+    race = prop == "C17"
     i = 3
     while i < len(a):
         if a[i] == "--demo-dir":
@@ -84,10 +85,11 @@ def main():
     for f in demos:
         names += re.findall(r"^func (Test\w+)\(", open(f).read(), re.M)
     runarg = "^(" + "|".join(names) + ")$" if names else "."
-    rc, out = run(["go", "test", "-vet=off", "-count=1", "-run", runarg, pkg], cwd=d)
+    tcmd = ["go", "test", "-vet=off", "-count=1"] + (["-race"] if race else [])
+    rc, out = run(tcmd + ["-run", runarg, pkg], cwd=d)
     demo_res["fails_with_patch"] = rc != 0
     run(["git", "apply", "-R", patch], cwd=d)
-    rc, out2 = run(["go", "test", "-vet=off", "-count=1", "-run", runarg, pkg], cwd=d)
+    rc, out2 = run(tcmd + ["-run", runarg, pkg], cwd=d)
     demo_res["passes_without_patch"] = rc == 0
     if rc != 0:
         demo_res["output_without_patch"] = out2[-1500:]
